@@ -20,8 +20,11 @@ PACKED_SPELL = ["__attribute__((packed))", "[[gnu::packed]]", "__attribute__((__
 class Rendered:
     """C text of one aggregate type term with generated member names."""
 
-    def __init__(self, term, tag, prefix, packed="__attribute__((packed))", alignas="_Alignas"):
+    ALIGN_TYPE = {1: "char", 2: "short", 4: "int", 8: "double"}
+
+    def __init__(self, term, tag, prefix, packed="__attribute__((packed))", alignas="_Alignas", align_by_type=False):
         self.term, self.tag, self.prefix = term, tag, prefix
+        self.align_by_type = align_by_type
         self.names = {}            # tuple of member indices -> name
         self.n = 0
         self.packed, self.alignas = packed, alignas
@@ -42,7 +45,10 @@ class Rendered:
         parts = []
         for i, m in enumerate(t["ms"], 1):
             k = key + (i,)
-            al = "%s(%d) " % (self.alignas, m["al"]) if m["al"] else ""
+            al = ""
+            if m["al"]:
+                arg = self.ALIGN_TYPE[m["al"]] if self.align_by_type and m["al"] in self.ALIGN_TYPE else str(m["al"])
+                al = "%s(%s) " % (self.alignas, arg)
             mt = m["t"]
             if m["w"] != -1:
                 nm = self._name(k) if m["nm"] else ""
@@ -181,3 +187,36 @@ def term_stats(t):
         b += sb + (1 if m["w"] != -1 else 0)
         n += sn + 1
     return d + 1, b, n
+
+
+def tlc_cached(ctx, spec, cfg, **kw):
+    """ctx.tlc, or (development / negative controls only, VERIF_TLC_CACHE=1) its stored result: TLC's output depends on
+    the spec, the config, the arguments and the input file only, never on /repo."""
+    import hashlib, pickle, glob
+    if os.environ.get("VERIF_TLC_CACHE") != "1":
+        return ctx.tlc(spec, cfg, **kw)
+    h = hashlib.sha1()
+    for f in sorted(glob.glob(os.path.join(vlib.SPEC, "*.tla"))):
+        if os.path.basename(f) in ("Layout.tla", "Abi.tla", "Trace_Layout.tla"):
+            h.update(open(f, "rb").read())
+    h.update(open(os.path.join(vlib.SPEC, cfg), "rb").read())
+    env = kw.get("env") or {}
+    for k in sorted(env):
+        if os.path.exists(str(env[k])):
+            h.update(open(env[k], "rb").read())
+    h.update(repr(sorted((k, v) for k, v in kw.items() if k not in ("env", "workers", "timeout", "heap"))).encode())
+    h.update(str(ctx.seed).encode())
+    d = os.path.join(vlib.WORK, "tlc_cache")
+    os.makedirs(d, exist_ok=True)
+    path = os.path.join(d, "%s-%s-%s.pkl" % (spec, cfg, h.hexdigest()[:16]))
+    if os.path.exists(path):
+        r = pickle.load(open(path, "rb"))
+        ctx.cov["states"] += r.distinct
+        ctx.cov["transitions"] += r.states
+        ctx.tlc_runs.append({"spec": spec, "cfg": cfg, "rc": r.rc, "generated": r.states, "distinct": r.distinct, "cached": True})
+        return r
+    r = ctx.tlc(spec, cfg, **kw)
+    if r.rc == 0:
+        pickle.dump(r, open(path + ".tmp%d" % os.getpid(), "wb"))
+        os.rename(path + ".tmp%d" % os.getpid(), path)
+    return r
